@@ -96,7 +96,7 @@ func specCTWins(had bool, reason string, c int, o uint32, c0 int, o0 uint32) boo
 }
 
 //@ func (table *CollisionTable) compareAndSet
-//@   props C13 C14
+//@   props C13 C14 C03
 //@   ints bv
 //@   requires it != nil && ctWF(table)
 //@   requires forallU64(func(h uint64) bool { return allocated(table.Items[h]) })   // modelling: the stored inner maps exist (the engine assumes it only for non-quantified reads)
